@@ -432,7 +432,7 @@ class Engine:
             self.lists[loc] = ["sym", n, arrs, T_.elem]
             self.assume_list_wf(self.lists[loc])
             return VList(loc)
-        if isinstance(T_, TObj):
+        if isinstance(T_, (TObj, TMap)):
             t = z3.Int(self.fresh_name(name))
             self.assume(z3.And(t >= 1, t < self.alloc_term()))
             return VObj(T_.cls, t)
@@ -460,7 +460,7 @@ class Engine:
             return [("b", z3.BoolSort())]
         if isinstance(T_, TFloat):
             return [("f", fsort(T_.kind))]
-        if isinstance(T_, (TEnum, TObj, TStr)):
+        if isinstance(T_, (TEnum, TObj, TStr, TMap)):
             return [("e", z3.IntSort())]
         if isinstance(T_, TTuple):
             out = []
@@ -494,7 +494,7 @@ class Engine:
             if not isinstance(v, VEnum):
                 raise Unsupported("expected enum leaf")
             return [v.t]
-        if isinstance(T_, TObj):
+        if isinstance(T_, (TObj, TMap)):
             if not isinstance(v, VObj):
                 raise Unsupported("expected obj leaf, got %r" % (v,))
             return [v.t]
@@ -506,6 +506,8 @@ class Engine:
             return [v.t]
         if isinstance(T_, TTuple):
             v = self.force(v)
+            if isinstance(v, VTuple) and len(v.items) < len(T_.items) and all(isinstance(x, TOpt) for x in T_.items[len(v.items):]):
+                v = VTuple(v.items + [NONE] * (len(T_.items) - len(v.items)), v.cls)  # short tuple: optional tail absent
             if not isinstance(v, VTuple) or len(v.items) != len(T_.items):
                 raise Unsupported("expected tuple of %d, got %r" % (len(T_.items), v))
             out = []
@@ -562,7 +564,7 @@ class Engine:
             if wf:
                 self.assume(z3.And(t >= 0, t < len(enum_members(T_.cls))))
             return VEnum(T_.cls, t), leaves
-        if isinstance(T_, TObj):
+        if isinstance(T_, (TObj, TMap)):
             t = leaves.pop(0)
             if wf:
                 self.assume(z3.And(t >= 1, t < self.alloc_term()))
@@ -598,7 +600,7 @@ class Engine:
         if isinstance(v, VEnum):
             return TEnum(v.cls)
         if isinstance(v, VObj):
-            return TObj(v.cls)
+            return TMap(v.cls.valT) if isinstance(v.cls, MapCls) else TObj(v.cls)
         if isinstance(v, (VStr, VStrSym)):
             return TStr()
         if isinstance(v, VTuple):
@@ -657,7 +659,7 @@ class Engine:
             return [(0, len(enum_members(T_.cls)) - 1)]
         if isinstance(T_, (TBool, TFloat)):
             return [None]
-        if isinstance(T_, TObj):
+        if isinstance(T_, (TObj, TMap, TStr)):
             return [None]
         if isinstance(T_, TTuple):
             out = []
@@ -710,6 +712,8 @@ class Engine:
         if not isinstance(ft, TList):
             raise Unsupported("heap list field %s" % field)
         lenarr = self.heap_arr(field + "#len", z3.IntSort())
+        n_ = z3.Select(lenarr, ref)
+        self.assume(z3.And(n_ >= 0, n_ < (1 << 48)))   # well-formedness of list objects on the heap
         arrs = []
         for k, s in self.leaf_sorts(ft.elem):
             arrs.append(z3.Select(self.heap_arr("%s#%s" % (field, k), z3.ArraySort(z3.IntSort(), s)), ref))
@@ -924,11 +928,90 @@ class Engine:
             key = "%s#%s" % (field, k)
             self.heap[key] = z3.Store(self.heap_arr(key, s), obj.t, t)
 
+    def havoc_cell(self, obj, field):
+        """Havoc field `field` of the single object `obj` (all leaves; for list fields length and contents)."""
+        ft = self.field_type(field)
+        keys = []
+        if isinstance(ft, TList):
+            keys.append((field + "#len", z3.IntSort()))
+            for k, s_ in self.leaf_sorts(ft.elem):
+                keys.append(("%s#%s" % (field, k), z3.ArraySort(z3.IntSort(), s_)))
+        else:
+            for k, s_ in self.leaf_sorts(ft):
+                keys.append(("%s#%s" % (field, k), s_))
+        for key, s_ in keys:
+            arr = self.heap_arr(key, s_)
+            fv = z3.Const(self.fresh_name("hv." + key), s_)
+            self.heap[key] = z3.Store(arr, obj.t, fv)
+        if isinstance(ft, TList):
+            n_ = z3.Select(self.heap[field + "#len"], obj.t)
+            self.assume(z3.And(n_ >= 0, n_ < (1 << 48)))
+
     def havoc_field(self, field):
         for key in list(self.heap.keys()):
             if key.split("#")[0] == field:
                 self.heap[key] = z3.Array(self.fresh_name("H." + key), z3.IntSort(), self.heap[key].sort().range())
         # make sure all leaves exist (fresh arrays are created lazily otherwise, which is equivalent)
+
+    # ---------------------------------------------------------------- heap maps
+    ENUM_KEY_BASE = {}
+
+    def map_key(self, v):
+        """Integer encoding of a map key (enum member, int or string)."""
+        v = self.force(v)
+        if isinstance(v, VEnum):
+            base = Engine.ENUM_KEY_BASE.setdefault(v.cls, (len(Engine.ENUM_KEY_BASE) + 1) * (1 << 20))
+            return base + v.t
+        if isinstance(v, VStr):
+            return z3.IntVal(intern_str(v.s))
+        if isinstance(v, VStrSym):
+            return v.t
+        iv = self.as_int(v)
+        if iv is not None:
+            return iv.t
+        raise Unsupported("map key %r" % (v,))
+
+    def _map_arrays(self, mcls):
+        """[(heap key, value sort)] for the presence flag and the value leaves of maps of this class."""
+        out = [("map$%s#present" % mcls.tag, z3.BoolSort())]
+        for k, s_ in self.leaf_sorts(mcls.valT):
+            out.append(("map$%s#%s" % (mcls.tag, k), s_))
+        return out
+
+    def map_get(self, mobj, key):
+        """m[key] of a defaultdict(lambda: None)-like map: None when absent."""
+        k = self.map_key(key)
+        arrs = self._map_arrays(mobj.cls)
+        sel = [z3.Select(z3.Select(self.heap_arr(hk, z3.ArraySort(z3.IntSort(), s_)), mobj.t), k) for hk, s_ in arrs]
+        val = self.from_leaves(sel[1:], mobj.cls.valT, assume_wf=False)
+        return VOpt(z3.Not(sel[0]), val)
+
+    def map_set(self, mobj, key, value):
+        k = self.map_key(key)
+        arrs = self._map_arrays(mobj.cls)
+        value = self.force(value) if isinstance(value, VOpt) else value
+        if isinstance(value, VNone):
+            leaves = [z3.BoolVal(False)] + self.default_leaves(mobj.cls.valT)
+        else:
+            leaves = [z3.BoolVal(True)] + self.to_leaves(value, mobj.cls.valT)
+        for (hk, s_), t in zip(arrs, leaves):
+            outer = self.heap_arr(hk, z3.ArraySort(z3.IntSort(), s_))
+            self.heap[hk] = z3.Store(outer, mobj.t, z3.Store(z3.Select(outer, mobj.t), k, t))
+
+    def map_havoc_key(self, mobj, key):
+        k = self.map_key(key)
+        for hk, s_ in self._map_arrays(mobj.cls):
+            outer = self.heap_arr(hk, z3.ArraySort(z3.IntSort(), s_))
+            fv = z3.Const(self.fresh_name("mapv"), s_)
+            self.heap[hk] = z3.Store(outer, mobj.t, z3.Store(z3.Select(outer, mobj.t), k, fv))
+
+    def new_map(self, valT):
+        """Fresh empty map object."""
+        mobj = self.new_object(MapCls(valT))
+        hk, s_ = self._map_arrays(mobj.cls)[0]
+        outer = self.heap_arr(hk, z3.ArraySort(z3.IntSort(), s_))
+        self.heap[hk] = z3.Store(outer, mobj.t, z3.K(z3.IntSort(), z3.BoolVal(False)))
+        return mobj
 
     # ---------------------------------------------------------------- lifting native values
     def lift(self, obj):
@@ -1002,12 +1085,30 @@ class Engine:
 
     # ---------------------------------------------------------------- coercions
     def force(self, v):
-        """Unwrap an Optional by case split."""
+        """Unwrap an Optional by case split. Inside clauses (pure, possibly under a quantifier) there is no forking:
+        the payload is used as is; clauses must guard uses with `is not None` (natively they would raise otherwise)."""
         while isinstance(v, VOpt):
+            if getattr(self, "in_clause", False) or getattr(self, "in_quant", 0):
+                c = conc_bool(v.is_none)
+                if c is True:
+                    return NONE
+                v = v.val
+                continue
             if self.branch(v.is_none):
                 return NONE
             v = v.val
         return v
+
+    def force_inner(self, v):
+        return v.val if isinstance(v, VOpt) else v
+
+    @staticmethod
+    def opt_parts(v):
+        if isinstance(v, VOpt):
+            return v.is_none, v.val
+        if isinstance(v, VNone):
+            return z3.BoolVal(True), None
+        return z3.BoolVal(False), v
 
     def truth(self, v):
         """z3 Bool for Python truthiness of v."""
@@ -1556,6 +1657,17 @@ class Engine:
         raise Unsupported("binop %s on %r, %r" % (op, a, b))
 
     def compare(self, op, a, b):
+        if (isinstance(a, VOpt) or isinstance(b, VOpt)) and op in ("is", "is not", "==", "!="):
+            # Optional operands are compared without case split
+            na, va = self.opt_parts(a)
+            nb, vb = self.opt_parts(b)
+            if va is None or vb is None:
+                r = z3.And(na, nb)
+            elif op in ("is", "is not"):
+                r = z3.Or(z3.And(na, nb), z3.And(z3.Not(na), z3.Not(nb), self.identical(self.force_inner(va), self.force_inner(vb))))
+            else:
+                r = z3.Or(z3.And(na, nb), z3.And(z3.Not(na), z3.Not(nb), self.equal(va, vb)))
+            return VBool(r if op in ("is", "==") else z3.Not(r))
         a, b = self.force(a), self.force(b)
         if op in ("is", "is not"):
             r = self.identical(a, b)
@@ -1698,6 +1810,10 @@ class Engine:
         raise Unsupported("equality of %r, %r" % (a, b))
 
     def contains(self, container, item):
+        if type(container).__name__ == "VEnumName" and isinstance(item, VStr):
+            ev = container.ev
+            members = enum_members(ev.cls)
+            return z3.Or([ev.t == i for i, m in enumerate(members) if item.s in m.name] + [z3.BoolVal(False)])
         if isinstance(container, VTuple):
             return z3.Or([self.equal(item, x) for x in container.items] + [z3.BoolVal(False)])
         if isinstance(container, VList):
